@@ -1,6 +1,9 @@
 #!/usr/bin/env python3
 """Assemble /verif/seeded/<id>/ from the confirmed sub-agent changes under /tmp/mutout."""
-import json, os, shutil, glob, subprocess, re
+import json, os, shutil, glob, subprocess, re, sys
+ROOT = sys.argv[1] if len(sys.argv) > 1 else "/tmp/mutout"      # where the sub-agents delivered
+SUFFIX = sys.argv[2] if len(sys.argv) > 2 else ""               # round marker appended to the id ("2" -> C01-A2)
+NOTES = json.load(open(sys.argv[3])) if len(sys.argv) > 3 else {}  # id -> {"first_run":..., "strengthening":...}
 DROPPED = {
  "C01/B": "neutralised by fix d72963c (bound-method blacken): with blacken no longer re-greying, a single trace pass suffices; was caught by C01 (ScheduleDependentAbort, Asan heap-use-after-free) before that fix",
  "C02/B": "neutralised by fix 012ace0 (open upvalues keep their fiber alive): the unclosed upvalue of a finished fiber now stays valid",
@@ -14,15 +17,15 @@ MANUAL = {"C15/A": "demo.rs run as a cargo example in a scratch worktree: expect
 head = subprocess.run("git -C /repo rev-parse --short HEAD", shell=True, stdout=subprocess.PIPE).stdout.decode().strip()
 os.makedirs("/verif/seeded", exist_ok=True)
 rows = []
-for d in sorted(glob.glob("/tmp/mutout/C*/[AB]")):
-    mid = os.path.relpath(d, "/tmp/mutout")
-    sid = mid.replace("/", "-")
+for d in sorted(glob.glob(ROOT + "/C*/[AB]")):
+    mid = os.path.relpath(d, ROOT)
+    sid = mid.replace("/", "-") + SUFFIX
     conf = json.load(open(d + "/confirm.json")) if os.path.exists(d + "/confirm.json") else {}
     notes = open(d + "/notes.md").read() if os.path.exists(d + "/notes.md") else ""
-    if mid in DROPPED:
+    if mid in DROPPED and not SUFFIX:
         rows.append((sid, "dropped", DROPPED[mid]))
         continue
-    ok = conf.get("applies") and conf.get("builds") and conf.get("tests_ok") and (conf.get("demo_ok") or mid in MANUAL)
+    ok = conf.get("applies") and conf.get("builds") and conf.get("tests_ok") and (conf.get("demo_ok") or (mid in MANUAL and not SUFFIX))
     if not ok:
         rows.append((sid, "unconfirmed", str({k: conf.get(k) for k in ("applies", "builds", "tests_ok", "demo_ok")})))
         continue
@@ -31,7 +34,7 @@ for d in sorted(glob.glob("/tmp/mutout/C*/[AB]")):
     src_patch = d + "/patch.rebased.diff" if os.path.exists(d + "/patch.rebased.diff") and os.path.getsize(d + "/patch.rebased.diff") > 0 else d + "/patch.diff"
     shutil.copy(src_patch, out + "/patch.diff")
     for fn in os.listdir(d):
-        if fn.startswith("demo") or fn.startswith("expected") or fn in ("notes.md", "run.sh", "gc_report.awk") or fn.startswith("control") or fn == "find_collision.rs":
+        if fn.endswith(".yl") or fn.endswith(".txt") or fn.endswith(".py") or fn.startswith("demo") or fn.startswith("expected") or fn in ("notes.md", "run.sh", "gc_report.awk") or fn.startswith("control") or fn == "find_collision.rs":
             if os.path.isdir(d + "/" + fn):
                 shutil.copytree(d + "/" + fn, out + "/" + fn, dirs_exist_ok=True)
             else:
@@ -44,9 +47,15 @@ for d in sorted(glob.glob("/tmp/mutout/C*/[AB]")):
             "breaks": " ".join(notes.split("\n\n")[0].split())[:300], "needs_to_manifest": needs,
             "confirmed_at_repo_head": conf.get("head") or head,
             "confirmation": {"patch_applies": True, "builds_dev_and_release": True, "baseline_546_tests_pass": True,
-                             "demo": MANUAL.get(mid, "demo.yl vs expected.txt through yarel-cli in a scratch worktree: matches without the change, differs with it (tools/confirm_mutants.py)"),
+                             "demo": MANUAL.get(mid if not SUFFIX else "", "demo.rs as an integration test (cargo test -p yarel --test verif_demo) in a scratch worktree: passes without the change, fails with it (tools/confirm_mutants.py)" if os.path.exists(d + "/demo.rs") else "demo.yl vs expected.txt through yarel-cli in a scratch worktree: matches without the change, differs with it (tools/confirm_mutants.py)"),
                              "demo_detail": conf.get("demo")}}
+    meta.update(NOTES.get(mid, {}))
     json.dump(meta, open(out + "/meta.json", "w"), indent=1)
     rows.append((sid, "kept", ""))
+old = []
+if os.path.exists("/verif/seeded/index.json"):
+    old = [tuple(r) for r in json.load(open("/verif/seeded/index.json"))]
+mine = {r[0] for r in rows}
+rows = sorted([r for r in old if r[0] not in mine] + rows)
 json.dump(rows, open("/verif/seeded/index.json", "w"), indent=1)
 for r in rows: print(*r)
